@@ -749,13 +749,15 @@ def _strip(case):
 
 
 def run(ctx):
-  nd = (3200 if ctx.quick else 50000) // ctx.n + 1
-  ns = (96 if ctx.quick else 1600) // ctx.n + 1
-  nt = (128 if ctx.quick else 4000) // ctx.n + 1
+  nd = (2400 if ctx.quick else 50000) // ctx.n + 1
+  ns = (64 if ctx.quick else 1600) // ctx.n + 1
+  nt = (96 if ctx.quick else 4000) // ctx.n + 1
 
-  def part_b():
+  def part_b_delta():
     core.hyp_run(ctx, G.delta_case_st(), lambda c: oracle_delta(ctx, c), nd,
                  name="c20_delta")
+
+  def part_b_size():
     core.hyp_run(ctx, G.size_case_st(), lambda c: oracle_size(ctx, c), ns,
                  name="c20_size")
 
@@ -778,14 +780,16 @@ def run(ctx):
   if ctx.quick:
     # everything is count-limited; the ~120 leaves of the fixed specs are
     # always judged, the Hypothesis parts stop at their soft caps
-    until(0.4, part_b)
+    until(0.15, part_b_delta)
+    until(0.4, part_b_size)
     until(1.0, sampled)
     exhaustive = run_dfs(ctx, reserve=-1e9)
   else:
-    # ~1000 leaves first (up to 45% of the budget), then Part B (up to 60%),
-    # then sampling until the soft cap
+    # ~1000 leaves first (up to 45% of the budget), then Part B (up to 50% /
+    # 62%), then sampling until the soft cap
     exhaustive = until(0.45, lambda: run_dfs(ctx))
-    until(0.6, part_b)
+    until(0.5, part_b_delta)
+    until(0.62, part_b_size)
     until(1.0, sampled)
   # core.merge_results sums numeric info: dfs_complete_workers == number of
   # workers means every leaf of every fixed spec was judged.
